@@ -1,6 +1,6 @@
 (* C01 — only hash-verified pieces are ever reported complete: the theorems (statements in full). *)
 From Coq Require Import NArith List Bool.
-From LTV.C01 Require Import ParamsGen Model Proofs ProofsB.
+From LTV.C01 Require Import ParamsGen Model Proofs ProofsB ProofsGeo ProofsInv.
 Import ListNotations.
 Open Scope N_scope.
 
@@ -58,21 +58,37 @@ Theorem done_iff_all :
 Proof. exact Proofs.done_iff_all. Qed.
 Print Assumptions done_iff_all.
 
-(* every accepted write lies inside the block of the transfer; blocks are created inside their piece.
-   (bounds, part 1 and 2; the preservation of the block geometry by the other events is by inspection: no update
-   touches b_idx / b_off / b_len — not proved as a separate invariant, hence two statements) *)
-Theorem bounds_in_block :
-  forall (H : list N -> list N) (expected : N -> list N) (npieces : N) (psize : N -> N) s p d s' i b x t,
+(* bounds: in every accepted trace every accepted write lies inside the block of its transfer AND inside its piece
+   (block geometry is an invariant: ProofsGeo.geo_step). *)
+Theorem bounds :
+  forall (H : list N -> list N) (expected : N -> list N) (npieces : N) (psize : N -> N) st0 c0 tr s p d s' i b x t,
+  run H expected npieces psize (init st0 c0) tr = Some s ->
   accept H expected npieces psize s (EData p d) = Some s' -> get_cur s p = Some (CValid i b) ->
   find_block s i b = Some x -> find_tr p (b_trans x) = Some t ->
-  0 < lenN d /\ t_pos t + lenN d <= b_len x /\ b_off x + t_pos t + lenN d <= b_off x + b_len x.
-Proof. exact ProofsB.bounds_in_block. Qed.
-Print Assumptions bounds_in_block.
+  0 < lenN d /\ t_pos t + lenN d <= b_len x /\ b_off x + t_pos t + lenN d <= psize i.
+Proof. exact ProofsGeo.bounds. Qed.
+Print Assumptions bounds.
 
-Theorem blocks_inside_piece :
-  forall (psize : N -> N) i y, In y (mk_blocks psize i) -> b_idx y = i /\ b_off y + b_len y <= psize i.
-Proof. exact ProofsB.blocks_inside_piece. Qed.
-Print Assumptions blocks_inside_piece.
+(* "a hashing piece accepts no write", proved part: a Data event never changes a piece all of whose blocks are finished
+   (HashQueued requires exactly that). MISSING: the invariant that the blocks of a piece in the hash queue stay all
+   finished until the verdict (needs unique block keys + "the transfer a connection is receiving is unfinished", so
+   that a disconnect never erases a finished leader); checked dynamically on every recorded trace instead: the driver
+   compares the model's finished counts with the implementation's BlockList::finished() at every snapshot. *)
+Theorem hashing_never_written_partial :
+  forall (H : list N -> list N) (expected : N -> list N) (npieces : N) (psize : N -> N) s p d s' i,
+  accept H expected npieces psize s (EData p d) = Some s' -> all_finished s i = true -> piece s' i = piece s i.
+Proof. exact ProofsInv.hashing_never_written_partial. Qed.
+Print Assumptions hashing_never_written_partial.
+
+(* hostile peers are disconnected after max_failed: no connected peer has PeerInfo::failed_counter above max_failed
+   (DownloadMain::receive_corrupt_chunk erases the connection), and such a peer cannot connect again. *)
+Theorem hostile_disconnected_after_max_failed :
+  forall (H : list N -> list N) (expected : N -> list N) (npieces : N) (psize : N -> N) st0 c0 tr s,
+  run H expected npieces psize (init st0 c0) tr = Some s ->
+  (forall p, In p (conns s) -> failc_of s p <= max_failed) /\
+  (forall p, max_failed < failc_of s p -> accept H expected npieces psize s (EConn p) = None).
+Proof. exact ProofsInv.hostile_disconnected_after_max_failed. Qed.
+Print Assumptions hostile_disconnected_after_max_failed.
 
 (* no_fatal, proved part: the "already finished" check of FileList::mark_completed and the "already delegated" check
    of TransferList::insert cannot fire in an accepted trace. MISSING: the checks of Block::completed,
